@@ -40,10 +40,10 @@ func init() {
 		Name: "C17.trim", Prop: "C17",
 		Cases: func(tier string) int { return tierN(tier, 8, 60) },
 		Run:   runC17Trim,
-		Rule: "bare kv.NewDB with a mocked clock and a 5s retention (trimmer tick 500ms): batches with controlled timestamps, clock advanced, wait until the first stored notification key has moved (trimming observed, else inconclusive); a reader resuming from an offset still inside retention must receive every batch with timestamp > now - retention, contiguous; " +
+		Rule: "bare kv.NewDB with a mocked clock and a 5s retention (trimmer tick 500ms): batches with controlled timestamps, clock advanced, wait until the first stored notification key has moved (trimming observed, else inconclusive); in every second case one more request is committed from the hook between a trimming round's scan and its range delete (in half of those after every stored batch has expired); a reader resuming from an offset still inside retention must receive every batch with timestamp > now - retention, contiguous; " +
 			"non-trivial = trimming was observed; distinct = (timestamps, clock)",
 		MinNontrivial:    func(tier string) int { return tierN(tier, 3, 20) },
-		RequiredCounters: []string{"trims_observed"},
+		RequiredCounters: []string{"trims_observed", "requests_committed_during_a_trim_round"},
 		CaseTimeoutS:     120,
 		Weight:           1,
 	})
@@ -463,6 +463,28 @@ func runC17Trim(tier string, seed uint64, idx int) core.Result {
 		}
 	}
 	now := ts[rng.IntN(n)] + retention.Milliseconds() + rng.Int64N(2000)
+	// in every second case a request is committed while a trimming round is between its scan and its range delete;
+	// in half of those every stored batch has expired by then
+	late := idx%2 == 1
+	if late && rng.IntN(2) == 0 {
+		now = ts[n-1] + retention.Milliseconds() + 1 + rng.Int64N(2000)
+	}
+	var lateOnce sync.Once
+	var lateDone atomic.Bool
+	var lateErr atomic.Value
+	vhook.Clear()
+	defer vhook.Clear()
+	if late {
+		vhook.Set("notif.trim.before-delete", func(string, ...any) {
+			lateOnce.Do(func() {
+				req := &proto.WriteRequest{Puts: []*proto.PutRequest{{Key: "late", Value: []byte("v")}}}
+				if _, err := db.ProcessWrite(req, int64(n), uint64(now), server.WrapperUpdateOperationCallback); err != nil {
+					lateErr.Store(err)
+				}
+				lateDone.Store(true)
+			})
+		})
+	}
 	clock.Set(now)
 	cutoff := now - retention.Milliseconds()
 	// wait until trimming is observed (first stored notification moved) — bounded, else inconclusive
@@ -494,6 +516,17 @@ func runC17Trim(tier string, seed uint64, idx int) core.Result {
 	if fs > 0 || fs == -1 {
 		r.Count("trims_observed", 1)
 		r.Nontrivial()
+	}
+	vhook.Clear()
+	if e, _ := lateErr.Load().(error); e != nil {
+		r.Violate("C17/trim/write-error", scrub(e.Error()), nil)
+		return r.Done()
+	}
+	if lateDone.Load() {
+		// the request committed during the round is inside retention by construction
+		ts = append(ts, now)
+		n++
+		r.Count("requests_committed_during_a_trim_round", 1)
 	}
 	// every batch still inside retention must be there
 	firstNeeded := int64(-1)
